@@ -86,10 +86,12 @@ func checkC05(r *Run) {
 	// carries the licence of its callers: it is licensed when it is an unexported function and every
 	// use of it in the module is a static call from a licensed function. (For call sites in the infix evaluator the operator set is decided on the
 	// paths of the infix evaluator with the helper walked in line -- toleranceOperatorSetSSA.)
+	// (the licence also passes through helpers that tolerate nothing themselves: the if evaluator's
+	// "select the branch" phase calling "evaluate the condition")
 	cand := map[*types.Func]bool{}
-	for _, t := range tols {
-		if !licensed[t.decl.Obj] && !t.anon && !t.decl.Obj.Exported() && t.decl.Rel == "" {
-			cand[t.decl.Obj] = true
+	for _, f := range w.Funcs("") {
+		if !licensed[f.Obj] && !f.Obj.Exported() {
+			cand[f.Obj] = true
 		}
 	}
 	for changed := true; changed; {
